@@ -1,10 +1,16 @@
-"""C05 — configuration of the check (deductive tier under construction)."""
+"""C05 — A tile's 256x256 pixel grid is the centres of the tiles eight levels deeper."""
 PROPERTY = "C05"
-LEVEL = "exploration"
-CONTRACT_MODULES = ["contracts.specfuns"]
-FUNCTIONS = []
-LEMMAS = []
+LEVEL = "other"
+CONTRACT_MODULES = ["contracts.specfuns", "contracts.lemmas_desc", "contracts.pyramid", "contracts.image", "contracts.merge",
+                    "contracts.pyramidio", "contracts.study", "contracts.parallel", "contracts.multitan", "contracts.toastsample",
+                    "contracts.toastgeom", "contracts.pyxtext"]
+FUNCTIONS = ["toasty.toast.toast_tile_get_coords", "toasty.toast._div4"]
+LEMMAS = ["pyx_subsample_agrees_with_div4"]
 SLOW = ()
-TRUSTED_BASE = []
-ASSUMPTIONS = []
-EXPLANATION = "bounded run-time tier only so far"
+TRUSTED_BASE = ["pyvc VC generator; z3/cvc5", "compiled mid symmetric; the .so corresponds to the .pyx text (cannot be rebuilt offline)",
+                "mechanical rewriting of the Cython text listed in contracts/pyxtext.py"]
+ASSUMPTIONS = ["text-level agreement is checked by symbolic execution of the rewritten _subsample for grid sizes 1, 2, 4, 8 and both "
+               "orientations (the recursion is uniform in n; 256 = 2^8 follows the same rule) - a bounded check of the text, not an induction",
+               "latitude containment of pixel centres is floating-point geometry: bounded tier"]
+EXPLANATION = ("toast_tile_get_coords forwards exactly this tile's corners/orientation; one Python subdivision step proved; the .pyx "
+               "recursion text agrees with the Python subdivision rule (rows = y, columns = x)")
